@@ -22,6 +22,8 @@ import (
 	"io"
 	"os"
 	"reflect"
+
+	"github.com/davecgh/go-spew/spew"
 )
 
 type entry struct {
@@ -142,6 +144,26 @@ func ModelPlaintext(i int) []byte {
 		}
 	}
 	return nil
+}
+
+var frameDumps []string
+
+var dumper = spew.ConfigState{Indent: " ", DisablePointerAddresses: true, DisableCapacities: true, SortKeys: true, DisableMethods: true}
+
+// FrameBegin starts a frame condition on everything reachable from root: under the executor every
+// later write to an object that is reachable from root now is recorded; natively a deep dump
+// (unexported fields included) is taken.
+func FrameBegin(root any) int {
+	frameDumps = append(frameDumps, dumper.Sdump(root))
+	frameRoots = append(frameRoots, root)
+	return len(frameDumps) - 1
+}
+
+var frameRoots []any
+
+// FrameUnchanged reports whether nothing reachable from the root has been written since FrameBegin.
+func FrameUnchanged(tok int) bool {
+	return dumper.Sdump(frameRoots[tok]) == frameDumps[tok]
 }
 
 // Native reports whether the harness runs natively (replay) rather than under the executor.
